@@ -651,7 +651,7 @@ def execute(run, run_corr, sh, BUILD, REPO):
 # ---- texts brought up to date with what was built after the first wiring (appended, not edited in place) ----
 PROPS["C04"]["level_text"] += (" Bind only on success (Session/BindOnSuccess.lean): Twalk/Twalkgetattr, Tattach, Txattrwalk and Tlcreate leave the "
     "whole fid table exactly as it was whenever they answer Rlerror or end in a panic - for every oracle tape."
-    " Open-state and mode refusals (Session/Refuse.lean, 12 theorems): Tread/Twrite/Treaddir/Tfsync on an unopened fid, Tread on write-only, "
+    " Tremove always unbinds (remove_always_unbinds, like Tclunk). Open-state and mode refusals (Session/Refuse.lean, 12 theorems): Tread/Twrite/Treaddir/Tfsync on an unopened fid, Tread on write-only, "
     "Twrite on read-only, a second Tlopen or one of an unopenable type, a directory opened for writing, a walk in place from an opened fid, "
     "and create/mkdir/symlink/mknod/link/unlinkat inside an opened directory fid each answer the stated errno with no backend call and "
     "every table as it was (only the fid's count went up and down).")
